@@ -229,6 +229,20 @@ class LibCalls:
                     s2 = s.fork()
                     out.append((s2, args[1] if len(args) > 1 else e.const_val(None)))
             return out
+        if k == "dynbytes" and name == "decode":
+            enc = args[0].conc if args else (kwargs.get("encoding").conc if "encoding" in kwargs else "utf-8")
+            if enc != "ascii":
+                raise Unsupported(f"bytes.decode({enc!r})", node, e.path)
+            errors = args[1] if len(args) > 1 else kwargs.get("errors")
+            if errors is not None and not (errors.conc == "strict"):
+                # errors='replace' / 'ignore' ...: never raises; bytes >= 128 are replaced or dropped, so the result is NOT known to be the content nor ASCII-only in general
+                self.use("bytes.decode('ascii', errors != 'strict') never raises; the result is some string (U+FFFD for undecodable bytes with 'replace')")
+                return [(st, e.fresh(STR, "decoded"))]
+            self.use("bytes.decode('ascii'): the same characters if every byte is < 128, UnicodeDecodeError otherwise")
+            out = []
+            for s, ok in e.split(st, self.isascii(base.z)):
+                out.append((s, Val(STR, base.z)) if ok else (s, Exc("UnicodeDecodeError", "'ascii' codec can't decode byte", node.lineno)))
+            return out
         if k == "concdict" and name == "get":
             key = e.coerce(args[0], INT, node).z
             out = []
@@ -516,6 +530,13 @@ class LibCalls:
                 if st.written is not None:
                     st.written.add(("heap", "$dyn", kind, obj.z))
                 return [(st, e.const_val(None))]
+            cm = getattr(e.contract, "ctype_model", None) if e.contract is not None else None
+            if cm == "string":
+                # raw ctypes char array behind a String descriptor: its bytes up to the first NUL, viewed as a latin-1 string
+                self.use("ctypes: reading a c_char array field yields its bytes up to the first NUL")
+                arr = e.heap_arr(st, "$dyn", "str", ("map", STR, STR))
+                raw = z3.Select(z3.Select(arr, obj.z), an.z)
+                return [(st, Val(("dynbytes",), raw))]
             raise Unsupported("getattr under a computed name (type unknown)", node, e.path)
         if an.conc is None:
             raise Unsupported(f"{name} with a symbolic attribute name", node, e.path)
